@@ -29,8 +29,46 @@ ASSUMPTIONS = [
 ]
 
 
+HOSTDEP = {'struct.calcsize': 'native sizes/alignment of the host C compiler (no byte-order prefix given)',
+           'sys.byteorder': 'byte order of the host that generates the code, not of the stored array',
+           'sys.platform': 'host platform', 'os.name': 'host platform', 'platform.machine': 'host platform',
+           'platform.system': 'host platform', 'np.intp': 'host pointer size', 'ctypes.sizeof': 'host C type sizes',
+           'sys.maxsize': 'host pointer size'}
+CACHED = {'shape', '_shape', 'dtype', '_dtype', 'ndim', 'size', '_size', 'nbytes', 'itemsize'}
+
+
+def t0_sources(ctx, modname, clause='T0'):
+    """(a) the dispatcher takes numeric type, shape and byte order from the description re-read from disk
+    (`<array>._arrayinfo`), not from attributes cached in the handle, which go stale when another handle appends or
+    truncates; (b) no generator consults a property of the *host* (struct native sizes, sys.byteorder ...): the text must
+    be a function of the stored array only."""
+    m = ctx.repo.module(modname)
+    disp = m.funcs.get('readcode')
+    if disp is None:
+        raise AnalysisError(f'{modname}.readcode vanished')
+    p0 = disp.params[0]
+    stale = [n for n in own_nodes(disp.node) if isinstance(n, ast.Attribute) and isinstance(n.value, ast.Name)
+             and n.value.id == p0 and n.attr in CACHED]
+    ctx.decide(not stale, 'R-FLOW', clause, disp, stale[0] if stale else None, f'descriptor-source::{modname}',
+               f'{modname}.readcode derives type, shape and byte order from the description file re-read from disk '
+               f'({p0}._arrayinfo)',
+               detail=f'`{norm(stale[0]) if stale else ""}` is a value cached in the handle: after truncate_array(path) or an '
+                      f'append through another handle the program is generated for the old shape')
+    host = []
+    for f in m.all_funcs():
+        for n in own_nodes(f.node):
+            d = dotted(n) if isinstance(n, (ast.Attribute, ast.Name)) else None
+            if d in HOSTDEP:
+                host.append((f, n, d))
+    ctx.decide(not host, 'R-FLOW', clause, host[0][0] if host else disp, host[0][1] if host else None, f'host-independent::{modname}',
+               f'no read-code generator of {modname} consults a property of the generating host',
+               detail=f'{host[0][0].qualname} uses `{host[0][2]}` ({HOSTDEP[host[0][2]]}): the generated program differs '
+                      f'between hosts for the same stored array' if host else '')
+
+
 def run(ctx):
     repo = ctx.repo
+    t0_sources(ctx, 'readcodearray')
     try:
         ia, ir = space.make_interps(repo)
     except Unmodelled as e:
